@@ -41,6 +41,7 @@ META = {
         "moptipy (Execution, algorithms, log writer/parser) is a trusted "
         "dependency"],
     "shards": [6, 16],
+    "quick_scale": 1,
     "technique": "property-based testing: Hypothesis-generated run "
                  "configurations; metamorphic same-seed re-run, round trip "
                  "through the log files, independent re-evaluation of the "
